@@ -8,7 +8,7 @@ from ...utils import units
 from ...dates import Date
 from ...orbits import StateVector, Orbit, Ephem
 from ...errors import ParseError
-from ...utils.measures import Measure
+from ...utils.measures import Measure, MeasureSet
 from ...propagators.base import AnalyticalPropagator
 from ...frames.frames import TEME
 from ...orbits.forms import TLE
@@ -129,7 +129,10 @@ def detect2dump(data, **kwargs):
             type = "omm"
         else:
             type = "opm"
-    elif isinstance(data, Iterable) and all(isinstance(x, Measure) for x in data):
+    elif isinstance(data, Iterable) and all(
+        isinstance(x, (Measure, MeasureSet)) for x in data
+    ):
+        # a MeasureSet, or the list of MeasureSet read from a multi-segment TDM
         type = "tdm"
     else:
         raise TypeError("Unknown object type")
